@@ -8,7 +8,8 @@ from hypothesis import strategies as st
 
 from harness.common import Ctx, drive, guard
 
-RULE = ("(i) halton(size 1-40, first d primes d 1-40, n_start in [0, 2^16+2^12)) against an exact-rational radical inverse; "
+RULE = ("(0) halton() at EVERY index 1..2^16+2^13 for each of the first 40 primes (complete enumeration, integer reference); "
+        "(i) halton(size 1-40, first d primes d 1-40, n_start in [0, 2^16+2^12)) against an exact-rational radical inverse; "
         "(ii) histories of get_n_primes(n) calls (n <= 2000) on one cache against trial division; (iii) Halton / R-sequence "
         "sampler objects on the unit box with precision 2^-17 (snapping injective on the index), dimensions 1-40 (R: 1-12), "
         "seeds, 1-5 successive batch sizes on one object and a twin drawing the total in one batch. Non-trivial = >= 2 "
@@ -80,6 +81,45 @@ def check_fn(ctx: Ctx, case):
                 ctx.fail("C13/halton-value", f"point {k} (index {n0 + 1 + k}) base {PRIMES[j]}: {out[k, j]!r} != radical "
                          f"inverse {float(ref)!r}", sub, case)
                 return
+
+
+def check_fn_all_indices(ctx: Ctx):
+    """Every index the sampler can reach x each of the first 40 primes, in one pass: the reversed-digit integer divided by
+    the power of the base (both exact in double precision, the quotient correctly rounded) against halton()."""
+    from black_it.samplers.halton import halton
+
+    sub = "halton_fn_all_indices"
+    n_max = 2**16 + 2**13
+    mine = [j for j in range(40) if j % ctx.nshards == ctx.shard]
+    if not mine:
+        return
+    bases = [PRIMES[j] for j in mine]
+    try:
+        out = halton(sample_size=n_max, bases=np.array(bases), n_start=0)
+    except Exception as e:  # noqa: BLE001
+        ctx.violations.append({"key": "C13/exception", "what": f"halton({n_max}, {bases}) raises {type(e).__name__}: {e}",
+                               "sub": sub, "case": {"size": n_max, "bases": bases, "n_start": 0}})
+        return
+    idx = np.arange(1, n_max + 1, dtype=np.int64)
+    for col, b in enumerate(bases):
+        n, rev, den = idx.copy(), np.zeros_like(idx), np.ones_like(idx)
+        while (n > 0).any():
+            live = n > 0
+            rev[live] = rev[live] * b + n[live] % b
+            den[live] *= b
+            n[live] //= b
+        ref = rev / den
+        bad = np.nonzero(~(np.abs(out[:, col] - ref) <= 1e-12))[0]
+        ctx.evaluations += n_max
+        ctx.classes[sub] += n_max
+        if len(bad):
+            k = int(bad[0])
+            case = {"size": 1, "d": mine[col] + 1, "n_start": k}
+            ctx.violations.append({"key": "C13/halton-value", "what": f"index {k + 1} base {b}: halton() gives {out[k, col]!r}, "
+                                   f"radical inverse is {float(ref[k])!r} ({len(bad)} indices of this base differ)",
+                                   "sub": "halton_fn", "case": case})
+            return
+    ctx.exhaustive_axes[f"halton(): every index 1..{n_max} x each of the first 40 primes"] = True
 
 
 # ---- (ii) prime cache histories --------------------------------------------------------------------------------------
@@ -313,6 +353,9 @@ SUBCHECKS = {"rseq_long": check_rseq_long, "halton_dedup": check_dedup_continuat
 
 
 def run(ctx: Ctx):
+    check_fn_all_indices(ctx)
+    if ctx.violations:
+        return
     drive(ctx, "halton_fn", fn_cases(), check_fn, ctx.n(1500, 10000))
     drive(ctx, "primes", prime_cases(), check_primes, ctx.n(1500, 10000))
     drive(ctx, "halton_sampler", sampler_cases("halton"), check_sampler, ctx.n(1200, 8000))
